@@ -5,7 +5,7 @@
   A *renaming* is a permutation `π` (with inverse `π'`) of the definition indices `[0, n)`.
   `Spec.rename π π' sp` is the program in which the definition that `sp` has at index `i` sits at index
   `π i` (every operand index, loop target, stored value, `once` flag and creation stamp moved along);
-  `Events.rename π ev` moves the injected events.  Theorems, all for every one of the 29 constructors:
+  `Events.rename π ev` moves the injected events.  Theorems, all for every one of the 30 constructors:
 
   * `val_rename`        : start-of-transaction cell values commute with the renaming;
   * `fireOf_rename`     : the firing equation commutes with the renaming;
@@ -50,6 +50,7 @@ def Def.rename (π : Nat → Nat) : Def → Def
   | .snapshotn s cs => .snapshotn (π s) (cs.map π)
   | .gate s c => .gate (π s) (π c)
   | .hold s k => .hold (π s) k
+  | .holdz s c => .holdz (π s) (π c)
   | .once s => .once (π s)
   | .updates c => .updates (π c)
   | .value c => .value (π c)
@@ -73,7 +74,7 @@ def Def.indices : Def → List Nat
   | .defer s | .split s _ | .route s _ _ => [s]
   | .updates c | .value c | .mapc c _ => [c]
   | .merge a b _ | .orelse a b | .lift2 a b _ => [a, b]
-  | .snapshot s c _ | .snapshot1 s c | .gate s c => [s, c]
+  | .snapshot s c _ | .snapshot1 s c | .gate s c | .holdz s c => [s, c]
   | .snapshotn s cs => s :: cs
   | .liftn cs => cs
   | .switchs sel cands | .switchc sel cands => sel :: cands
@@ -190,6 +191,9 @@ theorem cellVal_rename (R : Renames π sp sp') (S : Scoped sp) :
     | none =>
       simp only []
       cases hd : sp.getDef i with
+      | holdz s c =>
+        rw [hd] at hidx
+        simp only [Def.rename]; rw [ih c (hidx c (by simp [Def.indices]))]
       | mapc c k =>
         rw [hd] at hidx
         simp only [Def.rename]; rw [ih c (hidx c (by simp [Def.indices]))]
@@ -310,6 +314,9 @@ theorem fireOf_rename (R : Renames π sp sp') (S : Scoped sp) (P : IsPerm sp.def
   | hold s k =>
     rw [hd] at hidx; rw [hd, Def.rename] at hd'
     rw [fireOf_hold _ _ _ _ hd, fireOf_hold _ _ _ _ hd', hL s (hidx s (by simp [Def.indices]))]
+  | holdz s c =>
+    rw [hd] at hidx; rw [hd, Def.rename] at hd'
+    rw [fireOf_holdz _ _ _ _ hd, fireOf_holdz _ _ _ _ hd', hL s (hidx s (by simp [Def.indices]))]
   | once s =>
     rw [hd] at hidx; rw [hd, Def.rename] at hd'
     rw [fireOf_once _ _ _ _ hd, fireOf_once _ _ _ _ hd', hL s (hidx s (by simp [Def.indices])),
@@ -448,6 +455,12 @@ theorem operands_rename (R : Renames π sp sp') (S : Scoped sp) (i : Nat) (hi : 
     cases sp.loopTo.get i <;> rfl
   | _ => simp [Def.rename]
 
+theorem valDeps_rename (R : Renames π sp sp') (i : Nat) (hi : i < sp.defs.size) :
+    valDeps sp' (π i) = (valDeps sp i).map π := by
+  unfold valDeps
+  rw [R.getDef i hi]
+  cases hd : sp.getDef i <;> simp [Def.rename]
+
 /-- if `rank` ranks `sp`, then `rank ∘ π'` ranks the renamed program -/
 theorem WellRanked.rename {rank : Nat → Nat} (wr : WellRanked sp rank) (R : Renames π sp sp')
     (S : Scoped sp) (P : IsPerm sp.defs.size π π') : WellRanked sp' (fun j => rank (π' j)) := by
@@ -461,6 +474,15 @@ theorem WellRanked.rename {rank : Nat → Nat} (wr : WellRanked sp rank) (R : Re
     rw [← P.right j hj, operands_rename R S _ hj'] at ho
     obtain ⟨o', ho', rfl⟩ := List.mem_map.mp ho
     have := wr.dec _ hj' o' ho'
+    refine ⟨P.lt _ this.1, ?_⟩
+    show rank (π' (π o')) < rank (π' j)
+    rw [P.left _ this.1]; exact this.2
+  · intro j hj o ho
+    rw [R.size] at hj ⊢
+    have hj' := P.lt' j hj
+    rw [← P.right j hj, valDeps_rename R _ hj'] at ho
+    obtain ⟨o', ho', rfl⟩ := List.mem_map.mp ho
+    have := wr.vdec _ hj' o' ho'
     refine ⟨P.lt _ this.1, ?_⟩
     show rank (π' (π o')) < rank (π' j)
     rw [P.left _ this.1]; exact this.2
@@ -521,6 +543,10 @@ theorem storedUpd_rename {rank : Nat → Nat} (wr : WellRanked sp rank) (R : Ren
     rw [hd] at hidx
     simp only [Def.rename]
     rw [hf s (hidx s (by simp [Def.indices])), val_rename R S i hi]
+  | holdz s c =>
+    rw [hd] at hidx
+    simp only [Def.rename]
+    rw [hf i hi, R.stored i hi, val_rename R S c (hidx c (by simp [Def.indices]))]
   | _ => simp only [Def.rename, Def.isCell, hf i hi] <;> try rfl
 
 theorem onceUpd_rename {rank : Nat → Nat} (wr : WellRanked sp rank) (R : Renames π sp sp')
@@ -671,7 +697,7 @@ def swap9 (i : Nat) : Nat :=
 def demo9Ev : Events := [(0, 7), (1, 9)]
 
 set_option maxRecDepth 8192 in
-theorem demo9_ranked : StaticRanked demo9 demo9Rank := ⟨by decide, by decide⟩
+theorem demo9_ranked : StaticRanked demo9 demo9Rank := ⟨by decide, by decide, by decide⟩
 set_option maxRecDepth 8192 in
 theorem swap9_perm : IsPerm demo9.defs.size swap9 swap9 := ⟨by decide, by decide, by decide, by decide⟩
 set_option maxRecDepth 8192 in
